@@ -27,7 +27,7 @@ def scratch():
     return d
 
 
-def run_case(kind, name, diff, expect, run_tests=True):
+def run_case(kind, name, diff, expect, run_tests=True, residual=None):
     d = scratch()
     try:
         r = sh('patch -p1 --no-backup-if-mismatch < %s' % diff, cwd=d)
@@ -47,6 +47,8 @@ def run_case(kind, name, diff, expect, run_tests=True):
             if r.returncode != 0:
                 fired[pid] = v[:3] or [r.stdout[-300:]]
         if kind == 'benign':
+            if fired and residual:
+                return 'RESIDUAL', {'known limit': residual, 'fired': sorted(fired)}
             return ('OK' if not fired else 'FALSE-ALARM'), fired
         missing = [p for p in expect if p not in fired]
         return ('OK' if not missing else 'MISSED'), {'fired': sorted(fired), 'missing': missing, 'detail': {p: fired[p][:1] for p in list(fired)[:4]}}
@@ -71,14 +73,14 @@ def main():
 
         def one(n, kind=kind, idx=idx):
             t0 = time.time()
-            status, info = run_case(kind, n, os.path.join(HERE, kind, n), idx.get(n, {}).get('expect', []), run_tests)
+            status, info = run_case(kind, n, os.path.join(HERE, kind, n), idx.get(n, {}).get('expect', []), run_tests, idx.get(n, {}).get('residual'))
             return n, status, info, time.time() - t0
         from concurrent.futures import ThreadPoolExecutor
         with ThreadPoolExecutor(max_workers=jobs) as ex:
             for n, status, info, dt in ex.map(one, names):
                 print('%-8s %-44s %-12s %5.1fs %s' % (kind, n, status, dt, json.dumps(info)[:700] if status != 'OK' or kind == 'mutants' else ''))
                 sys.stdout.flush()
-                if status != 'OK':
+                if status not in ('OK', 'RESIDUAL'):
                     bad += 1
     print('selftest: %d problem(s)' % bad)
     return 1 if bad else 0
